@@ -26,7 +26,12 @@ def run(c):
               "enclosing ifs / function literals, counted only when some enclosing if is constant; every file runs under the "
               "single-file engine and under one of eight other load histories (Deadcode rules loaded before / after / between "
               "files without them, next to imported bundles, inside a bundle whose later files have none), and in half of the "
-              "cases right after a run on the same state that a panicking Report callback aborted inside a dead branch")
+              "cases right after a run on the same state that a panicking Report callback aborted inside a dead branch; every history "
+              "but the first also loads 7-10 disturber rules -- Do() handlers, Contains() searches with sub-patterns of a concrete node "
+              "kind over whole bodies, custom bytecode filters, always-rejecting filters on the probes themselves -- half of them "
+              "ending in Deadcode() / !Deadcode() (every report of those is judged by the flag of its node); in half of the cases the "
+              "file is also run with Report callbacks that start runs over this file / the previous one (nil, own, pooled states; same "
+              "or another goroutine; two levels), each of which must report what it reports alone")
     c.trusted += walkerlib.TRUSTED + ["engine-level oracle: ast.Inspect + stack + types.Info.Types[cond].Value in harness/cmd/walker"]
     c.notes += ["whether a pattern matches is gogrep's decision; constant-ness of a condition is go/types' decision (both trusted)",
                 "the model reads one fact from types.Info: the constant value of IfStmt.Cond"]
@@ -51,7 +56,19 @@ def run(c):
             if not line.startswith("{"):
                 continue
             o = json.loads(line)
+            if o["k"] == "catalogue":
+                # the disturber rules of this run's load histories: every family must be there
+                kinds = o.get("kinds") or {}
+                for k, v in kinds.items():
+                    c.coverage["disturber_rules:" + k] = c.coverage.get("disturber_rules:" + k, 0) + v
+                missing = [k for k in ("do", "contains", "custom", "reject", "do+deadcode", "contains+deadcode", "custom+deadcode") if not kinds.get(k)]
+                if o["probes"] < 18 or missing:
+                    c.obligation("harness:deadcode-disturbers", False, "only %d disturber templates load (%s); kinds missing from the histories: %s"
+                                 % (o["probes"], o.get("mismatch"), missing))
+                continue
             n += 1
+            for k, v in (o.get("kinds") or {}).items():
+                c.coverage["deadcode_runs:" + k] = c.coverage.get("deadcode_runs:" + k, 0) + v
             if o.get("err"):
                 if o["err"].startswith("load: ") and "could not import" not in o["err"]:
                     # the Deadcode() rules load alone, so they must load next to other files / bundles
@@ -70,7 +87,7 @@ def run(c):
                     c.nontriv(s)
             for m in o.get("mismatch") or []:
                 c.fail("oracle", "Deadcode() verdict contradicts the constant-condition oracle: " + m,
-                       input={"target": o.get("src"), "rules": "Match(`probe($x)`).Where(m.Deadcode()) / .Where(!m.Deadcode())", "seed": seed,
+                       input={"target": o.get("src"), "rules": "Match(`probe($x)`).Where(m.Deadcode()) / .Where(!m.Deadcode()) and the disturber rules of the load history (groups q<n>_*; *_dead / *_live end in Deadcode() / !Deadcode())", "seed": seed,
                               "load_history": o.get("config"), "rules_files": o.get("files"), "load_order": o.get("order"),
                               "before_on_the_shared_state": o.get("poison") or "the earlier generated files of this engine"},
                        expected="dead iff some enclosing if has a constant condition and the probe lies in its Body (false) / Else (true)",
@@ -81,6 +98,9 @@ def run(c):
             c.obligation("harness-run:deadcode", False, out[-2000:])
         c.coverage["deadcode_files"] = c.coverage.get("deadcode_files", 0) + n
         c.coverage["load_histories_with_deadcode_rules"] = max(c.coverage.get("load_histories_with_deadcode_rules", 0), len(hist))
+        if not c.coverage.get("deadcode_runs:reports:disturber+deadcode") or not c.coverage.get("deadcode_runs:nested-runs"):
+            c.obligation("harness:deadcode-disturbers-ran", False, "no disturber rule with a Deadcode() tail reported / no re-entrant run happened: %s"
+                         % {k: v for k, v in c.coverage.items() if k.startswith("deadcode_runs:")})
         if len(hist) < 6:
             c.obligation("harness:deadcode-load-histories", False, "only %d of the load histories with Deadcode() rules ran: %s" % (len(hist), sorted(hist)))
 
